@@ -2,7 +2,7 @@ SPECIFICATION Spec
 CHECK_DEADLOCK FALSE
 CONSTANTS
   Threads = {t1}
-  Seeds = {1, 5}
+  Seeds = {1}
   Msgs = {0, 1}
   MaxCalls = 1
   MaxRetry = 1
